@@ -1,16 +1,33 @@
 /-
 Props/C17 — YAML position tables return recorded positions under any access order.
 Property theorems only; definitions (`tableFn`, `WF`, `SeqInv`, `FlavorOk`) and helper lemmas live
-in Proof/YamlPos.lean.  `pc`/`siw` are the per-word primitives `u64::count_ones` /
-`select_in_word`, assumed exact (`hpc`, `hsiw`; C02 proves the kernels).
+in Proof/YamlPos.lean.  The per-word primitives are the models the driver runs: `u64::count_ones` =
+`popc`, `select_in_word` = `selectCtz`; their exactness is C02's `popc_eq` / `select_ctz_eq`
+(`kernel_popc`, `kernel_select` below), so no theorem here has a free kernel hypothesis.  (The
+generic statements, for any exact `pc`/`siw`, are the lemmas of Proof/YamlPos.lean.)  `rate` is
+universally quantified (`0 < rate`); the extracted `SELECT_SAMPLE_RATE` satisfies it
+(`sample_rate_pos`).
 -/
 import SuccinctlyVerif.Proof.YamlPos
 import SuccinctlyVerif.Model.Words
 import SuccinctlyVerif.Generated.C17
+import SuccinctlyVerif.Props.C02
 namespace SV.Props.C17
 open SV SV.YamlPos
 
-variable {pc : Word → Nat} {siw : Word → Nat → Nat} {rate : Nat} {F : Flavor}
+variable {rate : Nat} {F : Flavor}
+
+local notation "pc" => popc
+local notation "siw" => selectCtz
+
+/-- `u64::count_ones` as modelled is exact (C02). -/
+theorem kernel_popc : ∀ w, popc w = popcount w := C02.popc_eq
+
+/-- `select_in_word` as modelled (CTZ loop) is exact (C02). -/
+theorem kernel_select : ∀ w k, selectCtz w k = selectInWordSpec w k := C02.select_ctz_eq
+
+local notation "hpc" => kernel_popc
+local notation "hsiw" => kernel_select
 
 /-- The freshly constructed cursor (`SequentialCursor::default()`) satisfies the invariant `SeqInv`
 (the two documented invariants + cached-select consistency) for every table. -/
@@ -19,16 +36,14 @@ theorem seqInv_default (F : Flavor) (T : Table) : SeqInv F T Cursor.init := seqI
 /-- `inv_step`: whichever path `get` takes (sequential, gap, backward jump), its answer is the
 history-free table function `tableFn` of the index — never a panic — and the stored cursor satisfies
 `SeqInv` again.  Holds for both flavors (`AdvancePositions`, `CompactEndPositions`). -/
-theorem inv_step (hpc : ∀ w, pc w = popcount w) (hsiw : ∀ w k, siw w k = selectInWordSpec w k)
-    (hF : FlavorOk pc F) {T : Table} (wf : WF pc rate T) {c : Cursor} (inv : SeqInv F T c) (i : Nat) :
+theorem inv_step (hF : FlavorOk pc F) {T : Table} (wf : WF pc rate T) {c : Cursor} (inv : SeqInv F T c) (i : Nat) :
     (get pc siw rate F T c i).1 = .val (tableFn F T i) ∧ SeqInv F T (get pc siw rate F T c i).2 :=
   get_spec hpc hsiw hF wf inv i
 
 /-- `history_irrelevant`: for a well-formed table, the answer to a lookup of `i` after an arbitrary
 earlier lookup list `h₁` equals the answer after any other list `h₂` (any order, gaps, backward
 jumps, repeats, out-of-range indices). -/
-theorem history_irrelevant (hpc : ∀ w, pc w = popcount w) (hsiw : ∀ w k, siw w k = selectInWordSpec w k)
-    (hF : FlavorOk pc F) {T : Table} (wf : WF pc rate T) (h₁ h₂ : List Nat) (i : Nat) :
+theorem history_irrelevant (hF : FlavorOk pc F) {T : Table} (wf : WF pc rate T) (h₁ h₂ : List Nat) (i : Nat) :
     (get pc siw rate F T (runFrom pc siw rate F T Cursor.init h₁).2 i).1
       = (get pc siw rate F T (runFrom pc siw rate F T Cursor.init h₂).2 i).1 := by
   have a := (runFrom_spec hpc hsiw hF wf _ (seqInv_init F T) h₁).2
@@ -36,35 +51,23 @@ theorem history_irrelevant (hpc : ∀ w, pc w = popcount w) (hsiw : ∀ w k, siw
   rw [(get_spec hpc hsiw hF wf a i).1, (get_spec hpc hsiw hF wf b i).1]
 
 /-- Every answer of an arbitrary lookup history is the table function of its own index. -/
-theorem history_answers (hpc : ∀ w, pc w = popcount w) (hsiw : ∀ w k, siw w k = selectInWordSpec w k)
-    (hF : FlavorOk pc F) {T : Table} (wf : WF pc rate T) (hist : List Nat) :
+theorem history_answers (hF : FlavorOk pc F) {T : Table} (wf : WF pc rate T) (hist : List Nat) :
     (runFrom pc siw rate F T Cursor.init hist).1 = hist.map (fun i => Ans.val (tableFn F T i)) :=
   (runFrom_spec hpc hsiw hF wf _ (seqInv_init F T) hist).1
 
 /-- Both flavors satisfy what the proofs need (`scan_select` = per-word scan by Proof/Scan; the
 `as u32` cast is idempotent). -/
-theorem flavors_ok (pc : Word → Nat) : FlavorOk pc (openFlavor pc) ∧ FlavorOk pc (endFlavor pc) :=
+theorem flavors_ok : FlavorOk pc (openFlavor pc) ∧ FlavorOk pc (endFlavor pc) :=
   ⟨openFlavor_ok pc, endFlavor_ok pc⟩
 
-/-- The property's statement for start positions, at full strength (every recorded position
-`≤ text_len` is returned after every history).  **False** for the code as it stands — see
-`f4_witness` — and therefore only defined, never asserted. -/
-def open_get_exact_full_statement : Prop :=
-  ∀ (positions : List Nat) (textLen : Nat),
-    (∀ p ∈ positions, p ≤ textLen) → (∀ p ∈ positions, p < 2 ^ 32) → positions.length < usizeMax →
-    ∀ (hist : List Nat) (i : Nat),
-      ((OpenPositions.build popc selectCtz 256 positions textLen).get popc selectCtz 256
-        ((OpenPositions.build popc selectCtz 256 positions textLen).runFrom popc selectCtz 256
-          Cursor.init hist).2 i).1 = .val positions[i]?
-
-/-- `open_get_exact_partial`: for every `u32` start-position sequence (monotone with duplicates →
-compact Advance Index; anything else → dense), every text length and **every lookup history**,
-`OpenPositions::get(i)` returns exactly `positions[i]` (`None` past the end).  Missing with respect
-to `open_get_exact_full_statement`: the case of a recorded position equal to `text_len` when
-`text_len % 64 = 0` (finding F4: the IB bitmap has `⌈text_len/64⌉` words, so that bit is dropped). -/
-theorem open_get_exact_partial (hpc : ∀ w, pc w = popcount w) (hsiw : ∀ w k, siw w k = selectInWordSpec w k)
-    (hrate : 0 < rate) (positions : List Nat) (textLen : Nat)
-    (hdom : ∀ p ∈ positions, p ≤ textLen ∧ (p = textLen → textLen % 64 ≠ 0))
+/-- `open_get_exact` (full): for every `u32` start-position sequence whose entries are `≤ text_len`
+(monotone with duplicates → compact Advance Index; anything else → dense; a position **equal to
+`text_len` included, for every residue of `text_len` mod 64**), and **every lookup history**,
+`OpenPositions::get(i)` returns exactly `positions[i]` (`None` past the end).  (Before the repair
+of finding F4 the IB bitmap had `⌈text_len/64⌉` words and this failed for a position equal to
+`text_len` with `text_len % 64 = 0`.) -/
+theorem open_get_exact (hrate : 0 < rate) (positions : List Nat) (textLen : Nat)
+    (hdom : ∀ p ∈ positions, p ≤ textLen)
     (hu32 : ∀ p ∈ positions, p < 2 ^ 32) (hsmall : positions.length < usizeMax)
     (hist : List Nat) (i : Nat) :
     ((OpenPositions.build pc siw rate positions textLen).get pc siw rate
@@ -72,17 +75,15 @@ theorem open_get_exact_partial (hpc : ∀ w, pc w = popcount w) (hsiw : ∀ w k,
       = .val positions[i]? := by
   apply open_get_after hpc hsiw hrate positions textLen _ hu32 hsmall
   intro p hp
-  obtain ⟨h1, h2⟩ := hdom p hp
+  have := hdom p hp
   unfold divCeil
-  by_cases h : p = textLen
-  · have := h2 h; omega
-  · omega
+  omega
 
 /-- The exact guard the code needs: the same conclusion whenever every position is below
-`64 · ⌈text_len / 64⌉` (this also covers positions beyond `text_len`). -/
-theorem open_get_exact_under_capacity (hpc : ∀ w, pc w = popcount w)
-    (hsiw : ∀ w k, siw w k = selectInWordSpec w k) (hrate : 0 < rate) (positions : List Nat) (textLen : Nat)
-    (hcap : ∀ p ∈ positions, p < 64 * divCeil textLen 64)
+`64 · ⌈(text_len + 1) / 64⌉` (the IB capacity; this also covers positions beyond `text_len` that
+still fall into the last IB word). -/
+theorem open_get_exact_under_capacity (hrate : 0 < rate) (positions : List Nat) (textLen : Nat)
+    (hcap : ∀ p ∈ positions, p < 64 * divCeil (textLen + 1) 64)
     (hu32 : ∀ p ∈ positions, p < 2 ^ 32) (hsmall : positions.length < usizeMax)
     (hist : List Nat) (i : Nat) :
     ((OpenPositions.build pc siw rate positions textLen).get pc siw rate
@@ -93,13 +94,6 @@ theorem open_get_exact_under_capacity (hpc : ∀ w, pc w = popcount w)
 /-- The extracted sample rate satisfies the side condition `0 < rate`. -/
 theorem sample_rate_pos : 0 < Gen.YAML_SELECT_SAMPLE_RATE := by decide
 
-/-- The full statement is refuted by the model of the code (finding F4). -/
-theorem open_get_exact_full_statement_false : ¬ open_get_exact_full_statement := by
-  intro h
-  have := h [0, 64] 64 (by decide) (by decide) (by decide) [] 1
-  revert this
-  decide +kernel
-
 /-- `end_get_spec`, exactly as the property words it: for every end-position sequence (zeros =
 nodes without a recorded end; any `text_len` that bounds the entries) and **every lookup history**,
 `EndPositions::get(i)` is
@@ -107,8 +101,7 @@ nodes without a recorded end; any `text_len` that bounds the entries) and **ever
 * exactly the node's own end if one was recorded (`ends[i] ≠ 0`);
 * for a node without one: `None`, or the end recorded for the *last earlier* node that has one.
 Holds for both variants (compact when the non-zero ends are non-decreasing, dense otherwise). -/
-theorem end_get_spec (hpc : ∀ w, pc w = popcount w) (hsiw : ∀ w k, siw w k = selectInWordSpec w k)
-    (hrate : 0 < rate) (ends : List Nat) (textLen : Nat) (hle : ∀ e ∈ ends, e ≤ textLen)
+theorem end_get_spec (hrate : 0 < rate) (ends : List Nat) (textLen : Nat) (hle : ∀ e ∈ ends, e ≤ textLen)
     (hsmall : ends.length < usizeMax) (hist : List Nat) (i : Nat) :
     let a := ((EndPositions.build pc siw rate ends textLen).get pc siw rate
       ((EndPositions.build pc siw rate ends textLen).runFrom pc siw rate Cursor.init hist).2 i).1
@@ -156,14 +149,13 @@ theorem end_get_spec (hpc : ∀ w, pc w = popcount w) (hsiw : ∀ w k, siw w k =
 /-- The clause "an end recorded for an earlier node that lies at or before its start": whenever the
 recorder upholds the parser's invariant (every end recorded before node `i` is at or before node
 `i`'s start `s`), an inherited answer for a node without an own end is `≤ s`. -/
-theorem end_inherited_le_start (hpc : ∀ w, pc w = popcount w) (hsiw : ∀ w k, siw w k = selectInWordSpec w k)
-    (hrate : 0 < rate) (ends : List Nat) (textLen : Nat) (hle : ∀ e ∈ ends, e ≤ textLen)
+theorem end_inherited_le_start (hrate : 0 < rate) (ends : List Nat) (textLen : Nat) (hle : ∀ e ∈ ends, e ≤ textLen)
     (hsmall : ends.length < usizeMax) (hist : List Nat) (i : Nat) (hi : i < ends.length)
     (h0 : ends[i] = 0) (s : Nat) (hparser : ∀ j, ∀ (hj : j < i), ends[j]'(by omega) ≤ s) (e : Nat)
     (he : ((EndPositions.build pc siw rate ends textLen).get pc siw rate
       ((EndPositions.build pc siw rate ends textLen).runFrom pc siw rate Cursor.init hist).2 i).1
         = .val (some e)) : e ≤ s := by
-  obtain ⟨_, _, h3⟩ := end_get_spec hpc hsiw hrate ends textLen hle hsmall hist i
+  obtain ⟨_, _, h3⟩ := end_get_spec hrate ends textLen hle hsmall hist i
   rcases h3 hi h0 with h | ⟨j, hj, _, _, h⟩
   · rw [h] at he; simp at he
   · rw [h] at he
@@ -172,9 +164,8 @@ theorem end_inherited_le_start (hpc : ∀ w, pc w = popcount w) (hsiw : ∀ w k,
 
 /-- `history_irrelevant` for the structures the index actually holds: the answers of
 `OpenPositions::get` and `EndPositions::get` after two arbitrary histories coincide (no hypothesis
-on the positions beyond the `usize` size bound; holds in particular in the F4 situation). -/
-theorem open_history_irrelevant (hpc : ∀ w, pc w = popcount w) (hsiw : ∀ w k, siw w k = selectInWordSpec w k)
-    (hrate : 0 < rate) (positions : List Nat) (textLen : Nat) (hsmall : positions.length < usizeMax)
+on the positions beyond the `usize` size bound). -/
+theorem open_history_irrelevant (hrate : 0 < rate) (positions : List Nat) (textLen : Nat) (hsmall : positions.length < usizeMax)
     (h₁ h₂ : List Nat) (i : Nat) :
     ((OpenPositions.build pc siw rate positions textLen).get pc siw rate
       ((OpenPositions.build pc siw rate positions textLen).runFrom pc siw rate Cursor.init h₁).2 i).1
@@ -183,19 +174,23 @@ theorem open_history_irrelevant (hpc : ∀ w, pc w = popcount w) (hsiw : ∀ w k
   unfold OpenPositions.build
   by_cases hm : isMonotonic positions = true
   · rw [if_pos hm]
-    have wf := wf_buildOpen (pc := pc) (siw := siw) hpc hsiw hrate positions textLen
+    have wf := wf_buildOpen hpc hsiw hrate positions textLen
       (pairwise_of_isMonotonic positions hm) hsmall
     rw [open_runFrom_compact, open_runFrom_compact]
-    exact history_irrelevant hpc hsiw (openFlavor_ok pc) wf h₁ h₂ i
+    exact history_irrelevant (openFlavor_ok pc) wf h₁ h₂ i
   · rw [if_neg hm]; rfl
 
-/-- Finding F4, refutation witness on the model of the code: with start positions `[0, 64]` and
-`text_len = 64` the open-position table answers `None` for node 1 (recorded start 64). -/
-theorem f4_witness :
+/-- Finding F4 (fixed), regression: start positions `[0, 64]`, `text_len = 64` — node 1 is found. -/
+example :
     (get popc selectCtz 256 (openFlavor popc) (buildOpen popc selectCtz 256 [0, 64] 64) Cursor.init 1).1
-      = .val none := by decide +kernel
+      = .val (some 64) := by decide +kernel
 
-/-- The same sequence one byte longer is answered exactly (non-vacuity of the partial theorem). -/
+/-- … and the empty text with one node at 0. -/
+example :
+    (get popc selectCtz 256 (openFlavor popc) (buildOpen popc selectCtz 256 [0] 0) Cursor.init 0).1
+      = .val (some 0) := by decide +kernel
+
+/-- The same sequence one byte longer. -/
 example :
     (get popc selectCtz 256 (openFlavor popc) (buildOpen popc selectCtz 256 [0, 64] 65) Cursor.init 1).1
       = .val (some 64) := by decide +kernel
